@@ -1082,9 +1082,9 @@ fn exec_sys_function(song: &mut Song, t: &Token) -> bool {
             let i_from = args[1].to_i() as usize;
             let i_len = args[2].to_i() as usize;
             // println!("MID={},{},{}", val, i_from, i_len);
-            let s = vb_mid(&val, i_from, i_len).unwrap_or("");
+            let s = vb_mid(&val, i_from, i_len);
             // println!("MID={}", s);
-            song.stack.push(SValue::from_str(s));
+            song.stack.push(SValue::from_str(&s));
         } else {
             song.stack.push(SValue::from_str("(MID:ERROR)"));
         }
@@ -1136,12 +1136,10 @@ fn exec_sys_function(song: &mut Song, t: &Token) -> bool {
     true
 }
 
-fn vb_mid(input: &str, start: usize, length: usize) -> Option<&str> {
-    let input_len = input.len();
+/// MID: `length` characters from the 1-based character position `start`, clamped to the string
+fn vb_mid(input: &str, start: usize, length: usize) -> String {
     let start = if start >= 1 { start - 1 } else { 0 };
-    let mut end = start + length;
-    if end >= input_len { end = input_len; }
-    Some(&input[start..end])
+    input.chars().skip(start).take(length).collect()
 }
 
 fn exec_if(song: &mut Song, t: &Token) -> bool {
